@@ -54,14 +54,14 @@ package sync
 //@   requires from.IsZero() || from.Height() == storeTailH
 //@   requires [C16] within-store: from.IsZero() || to.Height() <= from.Height() || to.Height() <= storeLow + 1
 //@   requires from.IsZero() || (verified(to) && from.Height() < MaxUint64)
-//@   modifies ghost:storeTailH, ghost:storeLow, AP_set, AP_val_Hdr, ghost:storeAppends, ghost:appendedTop, errNonAdjacent.Head, errNonAdjacent.Attempted, $now, ranges.ranges, headerRange.headers, headerRange.start, State.ID, State.FromHeight, State.ToHeight, State.FromHash, State.ToHash, State.Start, State.End, State.Error, Parameters.hash, ghost:pendingAdds
+//@   modifies ghost:storeTailH, ghost:storeLow, AP_set, AP_val_Hdr, ghost:storeAppends, ghost:appendedTop, errNonAdjacent.Head, errNonAdjacent.Attempted, $now, ranges.ranges, headerRange.headers, headerRange.start, State.ID, State.FromHeight, State.ToHeight, State.FromHash, State.ToHash, State.Start, State.End, State.Error, Parameters.hash, ghost:pendingAdds, ghost:pendingReads
 
 //@ func (*Syncer).renewTail(s, ctx, oldTail, head)
 //@   props C16, C03
 //@   requires validParams(s.Params)
 //@   requires oldTail.IsZero() || (1 <= oldTail.Height() && oldTail.Height() <= head.Height())
 //@   requires storeHeightBound <= head.Height()
-//@   modifies ghost:storeLow, Parameters.hash, AP_set, AP_val_Hdr, ghost:storeAppends, ghost:appendedTop, errNonAdjacent.Head, errNonAdjacent.Attempted
+//@   modifies ghost:storeLow, Parameters.hash, AP_set, AP_val_Hdr, ghost:storeAppends, ghost:appendedTop, errNonAdjacent.Head, errNonAdjacent.Attempted, ghost:pendingReads
 //@   ensures [C16] verified-tail: result1 == nil && !result0.IsZero() && (oldTail.IsZero() || verified(oldTail)) ==> verified(result0)
 //@   ensures [C16] nonzero: result1 == nil ==> (!result0.IsZero() || (oldTail.IsZero() && result0 == oldTail))
 //@   ensures [C16] inchain: result1 == nil && !result0.IsZero() && s.Params.SyncFromHash == "" && len(old(s.Params.hash)) == 0 && s.Params.SyncFromHeight == 0 && head.Height() >= 1 ==> 1 <= result0.Height() && result0.Height() <= head.Height()
@@ -70,7 +70,7 @@ package sync
 //@   props C16
 //@   requires [C16,local] valid-params: validParams(s.Params)
 //@   requires [C16,local] entry-assumptions: !head.IsZero() && 1 <= head.Height() && head.Height() < MaxUint64 && storeHeightBound <= head.Height() && storeTailH <= head.Height()
-//@   modifies ghost:storeTailH, ghost:storeLow, Parameters.hash, AP_set, AP_val_Hdr, ghost:storeAppends, ghost:appendedTop, errNonAdjacent.Head, errNonAdjacent.Attempted, $now, ranges.ranges, headerRange.headers, headerRange.start, State.ID, State.FromHeight, State.ToHeight, State.FromHash, State.ToHash, State.Start, State.End, State.Error, ghost:pendingAdds
+//@   modifies ghost:storeTailH, ghost:storeLow, Parameters.hash, AP_set, AP_val_Hdr, ghost:storeAppends, ghost:appendedTop, errNonAdjacent.Head, errNonAdjacent.Attempted, $now, ranges.ranges, headerRange.headers, headerRange.start, State.ID, State.FromHeight, State.ToHeight, State.FromHash, State.ToHash, State.Start, State.End, State.Error, ghost:pendingAdds, ghost:pendingReads
 
 // ---- bifurcation (C15)
 
@@ -78,12 +78,12 @@ package sync
 //@   props C15, C03, C07
 //@   requires [C15,C03] verified-target: verified(netHead)
 //@   before wantSync [C07] target-recorded-before-wakeup: pendingAdds == old(pendingAdds) + 1 -- the sync loop must find the new target when the trigger wakes it
-//@   modifies AP_set, AP_val_Hdr, elems(H), EH_Int, headerRange.headers, headerRange.start, ranges.ranges, $now, ghost:storeAppends, ghost:appendedTop, errNonAdjacent.Head, errNonAdjacent.Attempted, ghost:pendingAdds
+//@   modifies AP_set, AP_val_Hdr, elems(H), EH_Int, headerRange.headers, headerRange.start, ranges.ranges, $now, ghost:storeAppends, ghost:appendedTop, errNonAdjacent.Head, errNonAdjacent.Attempted, ghost:pendingAdds, ghost:pendingReads
 
 //@ func (*Syncer).verifyBifurcating(s, ctx, subjHead, newHead)
 //@   props C15
 //@   requires verified(subjHead) && newHead.Height() > subjHead.Height()
-//@   modifies AP_set, AP_val_Hdr, elems(H), EH_Int, headerRange.headers, headerRange.start, ranges.ranges, $now, ghost:storeAppends, ghost:appendedTop, errNonAdjacent.Head, errNonAdjacent.Attempted, header.VerifyError.SoftFailure, ghost:pendingAdds
+//@   modifies AP_set, AP_val_Hdr, elems(H), EH_Int, headerRange.headers, headerRange.start, ranges.ranges, $now, ghost:storeAppends, ghost:appendedTop, errNonAdjacent.Head, errNonAdjacent.Attempted, header.VerifyError.SoftFailure, ghost:pendingAdds, ghost:pendingReads
 //@   ensures [C15] sound: result == nil ==> verified(newHead) && !newHead.IsZero()
 //@   ensures [C15] refusal-reason: result != nil && asVerr(result) != nil && asVerr(result).SoftFailure ==> cur(subjHeight) + 1 >= newHead.Height()
 //@ loop 0:
@@ -95,8 +95,10 @@ package sync
 // reads (trusted contracts of the accessors below) and established on every write (preconditions of
 // the sinks, proved at each call site).
 
+//@ ghost var pendingReads int -- number of reads of the pending set's head
 //@ func (*ranges).Head(rs)
 //@   trusted
+//@   effect pendingReads := old(pendingReads) + 1
 //@   ensures !result.IsZero() ==> verified(result)
 
 //@ func (*ranges).head(rs)
@@ -125,23 +127,25 @@ package sync
 
 //@ func (*syncStore).Head(s, ctx)
 //@   trusted
-//@   modifies AP_set, AP_val_Hdr
+//@   modifies AP_set, AP_val_Hdr, ghost:pendingReads
 //@   ensures result1 == nil ==> !result0.IsZero() && verified(result0)
+//@   ensures result1 == nil ==> apSet(s.head) && apVal(s.head) == result0
 //@   ensures asNonAdj(result1) == nil
 
 //@ func (*Syncer).localHead(s, ctx)
 //@   props C03, C15, C19
-//@   modifies AP_set, AP_val_Hdr
+//@   modifies AP_set, AP_val_Hdr, ghost:pendingReads
+//@   before (*syncStore).Head [C19] pending-read-first: pendingReads == old(pendingReads) + 1 -- a sync run moves headers store-first, pending-last: reading pending first and the store second can never miss a head that an earlier answer reported
 //@   ensures [C03] verified-head: result1 == nil ==> !result0.IsZero() && verified(result0)
 
 //@ func (*Syncer).verify(s, ctx, newHead)
 //@   props C03, C15
-//@   modifies AP_set, AP_val_Hdr, elems(H), EH_Int, headerRange.headers, headerRange.start, ranges.ranges, $now, ghost:storeAppends, ghost:appendedTop, errNonAdjacent.Head, errNonAdjacent.Attempted, header.VerifyError.SoftFailure, ghost:pendingAdds
+//@   modifies AP_set, AP_val_Hdr, elems(H), EH_Int, headerRange.headers, headerRange.start, ranges.ranges, $now, ghost:storeAppends, ghost:appendedTop, errNonAdjacent.Head, errNonAdjacent.Attempted, header.VerifyError.SoftFailure, ghost:pendingAdds, ghost:pendingReads
 //@   ensures [C03,C15] sound: result == nil ==> verified(newHead) && !newHead.IsZero()
 
 //@ func (*Syncer).incomingNetworkHead(s, ctx, head)
 //@   props C03, C15
-//@   modifies AP_set, AP_val_Hdr, elems(H), EH_Int, headerRange.headers, headerRange.start, ranges.ranges, $now, ghost:storeAppends, ghost:appendedTop, errNonAdjacent.Head, errNonAdjacent.Attempted, header.VerifyError.SoftFailure, ghost:pendingAdds
+//@   modifies AP_set, AP_val_Hdr, elems(H), EH_Int, headerRange.headers, headerRange.start, ranges.ranges, $now, ghost:storeAppends, ghost:appendedTop, errNonAdjacent.Head, errNonAdjacent.Attempted, header.VerifyError.SoftFailure, ghost:pendingAdds, ghost:pendingReads
 //@   ensures [C03] refused-or-verified: result == nil ==> verified(head) && !head.IsZero()
 
 //@ func (*syncStore).Append(s, ctx, headers)
@@ -149,10 +153,11 @@ package sync
 //@   ghost hd H := result0 of call Head #0
 //@   ghost hderr error := result1 of call Head #0
 //@   requires [C03] verified-store: forall i int :: 0 <= i && i < len(headers) ==> verified(headers[i])
-//@   modifies AP_set, AP_val_Hdr, ghost:storeAppends, errNonAdjacent.Head, errNonAdjacent.Attempted
+//@   modifies AP_set, AP_val_Hdr, ghost:storeAppends, errNonAdjacent.Head, errNonAdjacent.Attempted, ghost:pendingReads
 //@   ensures [C03] non-adjacent-untouched: asNonAdj(result) != nil ==> storeAppends == old(storeAppends)
 //@   ensures [C03] adjacent: result == nil && len(headers) > 0 && hderr == nil && headers[0].Height() >= hd.Height() ==> forall i int :: 0 <= i && i < len(headers) ==> headers[i].Height() == u64(hd.Height() + 1 + i)
 //@   ensures [C03] at-most-one-inner-append: storeAppends <= old(storeAppends) + 1
+//@   ensures [C03] cached-head-never-recedes: called(hd) && hderr == nil && hd.Height() + len(headers) < MaxUint64 ==> apSet(s.head) && apVal(s.head).Height() >= hd.Height() -- the head new headers are checked against only moves forward (a back-fill below it must not pull it back)
 //@   effect appendedTop := ite(result == nil && len(headers) > 0, headers[len(headers) - 1].Height(), old(appendedTop))
 //@ loop 0:
 //@   invariant bounds: -1 <= rangeindex && rangeindex + 1 <= len(headers)
@@ -169,7 +174,7 @@ package sync
 //@   props C07, C03
 //@   requires verified(fromHead) && to < MaxUint64
 //@   unreachable return1, return2 : the empty-range and non-adjacent-range checks are dead code for a contract-abiding getter
-//@   modifies AP_set, AP_val_Hdr, ghost:storeAppends, ghost:appendedTop, errNonAdjacent.Head, errNonAdjacent.Attempted, $now
+//@   modifies AP_set, AP_val_Hdr, ghost:storeAppends, ghost:appendedTop, errNonAdjacent.Head, errNonAdjacent.Attempted, $now, ghost:pendingReads
 //@   ensures [C07] reaches-target: result == nil && fromHead.Height() < to ==> appendedTop == to
 //@   ensures [C07] nothing-to-do: fromHead.Height() >= to ==> result == nil && appendedTop == old(appendedTop)
 //@ loop 0:
@@ -211,7 +216,7 @@ package sync
 //@ func (*Syncer).processHeaders(s, ctx, fromHead, to)
 //@   props C07, C03
 //@   requires verified(fromHead) && to < MaxUint64
-//@   modifies AP_set, AP_val_Hdr, ghost:storeAppends, ghost:appendedTop, errNonAdjacent.Head, errNonAdjacent.Attempted, $now, ranges.ranges, headerRange.headers, headerRange.start, ghost:pendingAdds
+//@   modifies AP_set, AP_val_Hdr, ghost:storeAppends, ghost:appendedTop, errNonAdjacent.Head, errNonAdjacent.Attempted, $now, ranges.ranges, headerRange.headers, headerRange.start, ghost:pendingAdds, ghost:pendingReads
 //@   ensures [C07] reaches-target: result == nil && fromHead.Height() < to ==> appendedTop == to
 //@ loop 0:
 //@   invariant [C07] progress: (fromHead.Height() <= to || fromHead.Height() == old(fromHead).Height()) && verified(fromHead)
@@ -220,7 +225,7 @@ package sync
 //@ func (*Syncer).doSync(s, ctx, fromHead, toHead)
 //@   props C07
 //@   requires verified(fromHead) && toHead.Height() < MaxUint64
-//@   modifies AP_set, AP_val_Hdr, ghost:storeAppends, ghost:appendedTop, errNonAdjacent.Head, errNonAdjacent.Attempted, $now, ranges.ranges, headerRange.headers, headerRange.start, State.ID, State.FromHeight, State.ToHeight, State.FromHash, State.ToHash, State.Start, State.End, State.Error, ghost:pendingAdds
+//@   modifies AP_set, AP_val_Hdr, ghost:storeAppends, ghost:appendedTop, errNonAdjacent.Head, errNonAdjacent.Attempted, $now, ranges.ranges, headerRange.headers, headerRange.start, State.ID, State.FromHeight, State.ToHeight, State.FromHash, State.ToHash, State.Start, State.End, State.Error, ghost:pendingAdds, ghost:pendingReads
 //@   ensures [C07] reaches-target: result == nil && fromHead.Height() < toHead.Height() ==> appendedTop == toHead.Height()
 //@   ensures [C07] state-cleared: result == nil ==> s.state.Error == ""
 //@   ensures [C07] state-range: s.state.ToHeight == toHead.Height() && s.state.FromHeight == u64(fromHead.Height() + 1)
@@ -254,7 +259,7 @@ package sync
 
 //@ func (*Syncer).subjectiveHead(s, ctx)
 //@   props C19
-//@   modifies AP_set, AP_val_Hdr, $now, ghost:headCalls, ghost:lastTrusted, syncHead.headCh, syncHead.resHead, syncHead.resErr
+//@   modifies AP_set, AP_val_Hdr, $now, ghost:headCalls, ghost:lastTrusted, syncHead.headCh, syncHead.resHead, syncHead.resErr, ghost:pendingReads
 //@   ensures [C19] never-expired: result2 == nil ==> !result0.IsZero() && !expiredAt(result0, s.Params.trustingPeriod, now)
 //@   ensures [C19] no-traffic-when-valid: result2 == nil && !result1 ==> headCalls == old(headCalls)
 //@   ensures [C19] untrusted-request-on-init: result1 ==> result2 == nil && (headCalls == old(headCalls) + 1 ==> lastTrusted.IsZero())
@@ -266,7 +271,7 @@ package sync
 //@   ghost sbj H := result0 of call subjectiveHead #0
 //@   ghost sbjInit bool := result1 of call subjectiveHead #0
 //@   ghost sbjErr error := result2 of call subjectiveHead #0
-//@   modifies AP_set, AP_val_Hdr, elems(H), EH_Int, headerRange.headers, headerRange.start, ranges.ranges, $now, ghost:storeAppends, ghost:appendedTop, errNonAdjacent.Head, errNonAdjacent.Attempted, header.VerifyError.SoftFailure, ghost:headCalls, ghost:lastTrusted, syncHead.headCh, syncHead.resHead, syncHead.resErr, ghost:pendingAdds
+//@   modifies AP_set, AP_val_Hdr, elems(H), EH_Int, headerRange.headers, headerRange.start, ranges.ranges, $now, ghost:storeAppends, ghost:appendedTop, errNonAdjacent.Head, errNonAdjacent.Attempted, header.VerifyError.SoftFailure, ghost:headCalls, ghost:lastTrusted, syncHead.headCh, syncHead.resHead, syncHead.resErr, ghost:pendingAdds, ghost:pendingReads
 //@   ensures [C19] error-only-from-subjective: result2 != nil <==> (called(sbjErr) && sbjErr != nil)
 //@   ensures [C19] no-downgrade: result2 == nil ==> result0.Height() >= sbj.Height() && !result0.IsZero()
 //@   ensures [C19] recent-no-traffic: result2 == nil && !sbjInit && recentAt(sbj, s.Params.blockTime, s.Params.recencyThreshold, now) ==> headCalls == old(headCalls) && result0 == sbj && !result1
@@ -280,7 +285,21 @@ package sync
 //@   ghost upd bool := result1 of call networkHead #0
 //@   ghost lh H := result0 of call localHead #0
 //@   ghost lherr error := result1 of call localHead #0
-//@   modifies AP_set, AP_val_Hdr, elems(H), EH_Int, headerRange.headers, headerRange.start, ranges.ranges, $now, ghost:storeAppends, ghost:appendedTop, errNonAdjacent.Head, errNonAdjacent.Attempted, header.VerifyError.SoftFailure, ghost:headCalls, ghost:lastTrusted, syncHead.headCh, syncHead.resHead, syncHead.resErr, ghost:storeTailH, ghost:storeLow, Parameters.hash, ghost:pendingAdds
+//@   modifies AP_set, AP_val_Hdr, elems(H), EH_Int, headerRange.headers, headerRange.start, ranges.ranges, $now, ghost:storeAppends, ghost:appendedTop, errNonAdjacent.Head, errNonAdjacent.Attempted, header.VerifyError.SoftFailure, ghost:headCalls, ghost:lastTrusted, syncHead.headCh, syncHead.resHead, syncHead.resErr, ghost:storeTailH, ghost:storeLow, Parameters.hash, ghost:pendingAdds, ghost:pendingReads
 //@   ensures [C19] non-zero: result1 == nil ==> !result0.IsZero()
 //@   ensures [C19] at-most-two-requests: headCalls <= old(headCalls) + 2
 //@   ensures [C19] returns-the-current-local-head: result1 == nil && called(upd) && upd ==> called(lh) && result0 == lh -- after the head moved, the answer is re-read from the pending set / store (heads learnt meanwhile included): this is what keeps successive answers monotone
+
+// ---- the sync loop (C07): every wake-up of the trigger channel is answered by a sync run; no trigger is
+// consumed without one (a head learnt while a sync is running keeps its buffered trigger)
+//@ ghost var syncRuns int -- number of Syncer.sync runs
+//@ func (*Syncer).sync(s, ctx)
+//@   props C07
+//@   modifies AP_set, AP_val_Hdr, ghost:storeAppends, ghost:appendedTop, errNonAdjacent.Head, errNonAdjacent.Attempted, $now, ranges.ranges, headerRange.headers, headerRange.start, State.ID, State.FromHeight, State.ToHeight, State.FromHash, State.ToHash, State.Start, State.End, State.Error, ghost:pendingAdds, elems(H), EH_Int, ghost:pendingReads
+//@   effect syncRuns := old(syncRuns) + 1
+
+//@ func (*Syncer).syncLoop(s)
+//@   props C07
+//@   modifies AP_set, AP_val_Hdr, ghost:storeAppends, ghost:appendedTop, errNonAdjacent.Head, errNonAdjacent.Attempted, $now, ranges.ranges, headerRange.headers, headerRange.start, State.ID, State.FromHeight, State.ToHeight, State.FromHash, State.ToHash, State.Start, State.End, State.Error, ghost:pendingAdds, elems(H), EH_Int, ghost:syncRuns, ghost:pendingReads
+//@ loop 0:
+//@   invariant [C07] every-trigger-syncs: recvd("Syncer.triggerSync") == syncRuns - old(syncRuns)
